@@ -127,6 +127,9 @@ func (s *redisServer) handleConn(conn net.Conn) {
 		args, err := parseRESP(reader)
 		if err != nil {
 			if errors.Is(err, io.EOF) {
+				// Replies of commands already executed may still be buffered
+				// (pipelined input followed by a partial line).
+				_ = writer.Flush()
 				return
 			}
 			if ne, ok := err.(net.Error); ok && ne.Timeout() {
